@@ -196,7 +196,8 @@ def all_cases(tier, seed):
         for res in range(1, 9):
             for start in (-3, 0, 5):
                 cs.append(('trgp', (c, res, start)))
-    for rows in itertools.product([(), (1,), (2, 1), (1, 1, 3)], repeat=2):
+    # (a seed peak's score is its height minus the noise level of its correlation: zero and negative scores are ordinary values)
+    for rows in itertools.product([(), (1,), (2, 1), (1, 1, 3), (0.5, 0.25, 0.25, 0.0), (-1,), (0, -0.5)], repeat=2):
         for count in range(0, 6):
             cs.append(('sel', (rows, count)))
     for n in range(0, 6):
@@ -237,7 +238,7 @@ def bounded(repo, tier, seed):
     return result(sum(r[0] for r in res), sum(r[1] for r in res),
                   "exhaustive small cases per function: vectorisePositions (label lists of <=3 labels on 0..9 x resolution 1-4 x start x end incl. "
                   "None/0/before-last), blur (all bit vectors up to length %d x radius 0-3), toRelativeGenomicPositions (bins 0-5 x resolution 1-8 x start), "
-                  "selectPeaks (peak score lists with ties x count 0-5), createPeaks (height vectors over 4 values with ties x peaksCount), OpticalMap.getSequence "
+                  "selectPeaks (peak score lists with ties, zero and negative scores x count 0-5), createPeaks (height vectors over 4 values with ties x peaksCount), OpticalMap.getSequence "
                   "(the positionsToSequence lattice with start >= 0 - a window start ON a label included - on both strands); "
                   "plus random larger label lists; counts per function: %s" % (8 if tier == 'quick' else 11, counts),
                   [dict(kind=k, case=c) for k, c in (cs[10], cs[len(cs) // 2], cs[-1])], list(viol.values())[:5],
